@@ -156,6 +156,11 @@ OPEN_ROOTS = {
 # collection schedule, so it is a scoping defect (C06, not claimed), not a GC-safety one; generating it only made a third of
 # the reference runs end early.
 ROOTS.update(OPEN_ROOTS)
+ROOTS["capture_on_finished_fiber"] = ["fn r{g}() {{", "  var f = Fiber.new(|x| {{ var l = x; var pad = [1]; return || {{ return l; }}; }});",
+                                      "  var get = f.call({H});", "  f = nil;", "  churn({n});", "  var l = get();", "  return {P};", "}}",
+                                      'print(("ev", {g}, r{g}()));']
+ROOTS["capture_of_fiber_parameter_after_finish"] = ["fn r{g}() {{", "  var f = Fiber.new(|l| {{ return || {{ return l; }}; }});", "  var get = f.call({H});",
+                                                    "  churn({n});", "  var l = get();", "  return {P};", "}}", 'print(("ev", {g}, r{g}()));']
 GEN_ROOTS = sorted(ROOTS)
 
 # ---- operations that make the interpreter hold fresh objects mid-operation ({u} = unique number)
@@ -333,7 +338,7 @@ class C01:
     LEVEL = "exploration"
     TIMEOUT = 40.0
     RULE = ("case = generated heap-shape program: 3-9 gadgets, each either a retention chain root -> e1..e4 -> target (19 edge kinds "
-            "x 18 target kinds x 18 root kinds; the chain is the only path to the target; allocation churn between building and "
+            "x 18 target kinds x 20 root kinds; the chain is the only path to the target; allocation churn between building and "
             "reading it back) or one of 41 operations that make the interpreter hold fresh unreferenced objects mid-operation "
             "(10 of them failing, so that the error object is allocated meanwhile); every case is executed under never-collect, "
             "collect-at-every-allocation and a PRNG collection tape (rate 1/2, 1/8 or 1/64), all with quarantine. non-trivial = the "
